@@ -755,6 +755,30 @@ func checkC15(c *ctx) {
 			}
 		}
 	}
+	// depths 11..20: accepted by New/Add/WriteTo/ReadFrom although the uint32 bin numbers wrap (recorded
+	// finding csi.reread.error.depth>10, theorem Hts.Props.C15.csi_built_read_write_witness)
+	for _, gm := range [][3]int{{1, 11, 1227133516}, {2, 11, 2454267032}, {14, 11, 1227133516 << 13}} {
+		func() {
+			idx := csi.New(gm[0], gm[1])
+			var w bytes.Buffer
+			var err error
+			o := guard(func() {
+				if err = idx.Add(csiRec{0, gm[2], gm[2] + 1}, mkChunk(1<<16, 2<<16), true, true); err != nil {
+					return
+				}
+				if err = csi.WriteTo(&w, idx); err != nil {
+					return
+				}
+				_, err = csi.ReadFrom(bytes.NewReader(w.Bytes()))
+			})
+			r.eval(fmt.Sprintf("csi.depth11.%d.%d", gm[0], gm[1]), true)
+			r.hist("csi.depth>10")
+			if o.panicked || err != nil {
+				r.fail("csi.reread.error.depth>10", fmt.Sprintf("csi.New(%d,%d) with one placed record [%d,%d): Add, WriteTo, ReadFrom gives %v %s", gm[0], gm[1], gm[2], gm[2]+1, err, o.panicVal),
+					c15Input{Kind: "csi-depth11", Variant: fmt.Sprint(gm)})
+			}
+		}()
+	}
 	for i := 0; i < 8; i++ {
 		for _, k := range kinds {
 			cs := g.c15Special(k, i)
